@@ -170,6 +170,15 @@ def growth(z, profiles, kx, ky):
     return best
 
 
+CR_MAX = 1e5
+
+
+def conductance_ratio(z, profiles):
+    Kz = np.asarray(profiles[4], dtype=float)
+    r = np.diff(z) / Kz[:-1]
+    return float(np.max(r) / np.min(r))
+
+
 def resolved(z, profiles, kx, ky):
     """max_i |T_i| dz_i^2 / Kz_i at the corner wavenumbers."""
     u, v, Kx, Ky, Kz = [np.asarray(a, dtype=float) for a in profiles]
@@ -334,9 +343,16 @@ def draw_setup(
         if G > gmax:
             skipped += 1
             continue
+        # second conditioning guard: ratio of the largest to the smallest layer resistance dz/Kz.  The flux rounding error of
+        # linear shooting grows with it (measured on 8000 set-ups: resid/(eps e^G) = 1, 5, 10, 120, 220 for cr < 1e1 .. 1e6; a
+        # roughness length of 1e-7 z_m gives cr = 1e7 and a flux accurate to 2e-4 only) - columns beyond 1e5 are not drawn
+        cr = conductance_ratio(z, prof)
+        if cr > CR_MAX:
+            skipped += 1
+            continue
         S = dict(
             nx=nx, ny=ny, dx=dx, dy=dy, domain=(xmax, ymax), halo=halo, halo_class=halo_class_of(halo, dx, dy, xmax, ymax),
-            px=px, py=py, nxe=nxe, nye=nye, modes=modes, mode_class=mc, z=z, profiles=prof, pdesc=pdesc, G=G, zm=zm,
+            px=px, py=py, nxe=nxe, nye=nye, modes=modes, mode_class=mc, z=z, profiles=prof, pdesc=pdesc, G=G, cr=cr, zm=zm,
         )
         return S, skipped
     return None, skipped
@@ -346,7 +362,7 @@ def describe(S):
     """JSON-able summary of a set-up (for evidence samples)."""
     return dict(
         nx=S["nx"], ny=S["ny"], dx=round(S["dx"], 6), dy=round(S["dy"], 6), halo=S["halo"], halo_class=S["halo_class"],
-        pad=(S["px"], S["py"]), modes=S["modes"], mode_class=S["mode_class"], nz=len(S["z"]), G=round(S["G"], 3),
+        pad=(S["px"], S["py"]), modes=S["modes"], mode_class=S["mode_class"], nz=len(S["z"]), G=round(S["G"], 3), cr=float("%.3g" % S.get("cr", 0)),
         profiles=S["pdesc"],
     )
 
